@@ -345,7 +345,12 @@ class SimProcess:
                     pass
             # BaseProcess._bootstrap: finally: util._flush_std_streams()
             ent.set_phase('exit')
-            sim.yp('p.exitflush')
+            try:
+                sim.yp('p.exitflush')
+            except KeyboardInterrupt:
+                # SIGINT with the default disposition while the interpreter is already finishing
+                code = 1
+                sim.ev('pexc', ent.name, 'KeyboardInterrupt')
             # fork: _bootstrap flushes once, then os._exit.  spawn: _bootstrap flushes, then
             # the child interpreter finalises and flushes sys.stdout/sys.stderr once more.
             for _round in range(2 if ent.flavour == 'spawn' else 1):
